@@ -654,7 +654,7 @@ pub fn hostile_reply(base: impl Strategy<Value = u8>) -> impl Strategy<Value = H
 pub fn host_strategy() -> impl Strategy<Value = HostCase> {
     (
         hostile_reply(prop_oneof![3 => Just(3u8), 1 => Just(5u8), 1 => Just(4u8)]),
-        prop::option::weighted(0.5, hostile_reply(prop_oneof![3 => Just(4u8), 1 => Just(5u8)])),
+        prop::option::weighted(0.6, hostile_reply(prop_oneof![3 => Just(4u8), 1 => Just(5u8), 1 => Just(6u8), 1 => Just(7u8)])),
         hostile_reply(prop_oneof![4 => Just(0u8), 1 => Just(5u8), 1 => Just(1u8)]),
         hostile_reply(prop_oneof![4 => Just(1u8), 1 => Just(5u8)]),
         hostile_reply(prop_oneof![4 => Just(2u8), 1 => Just(5u8)]),
@@ -662,15 +662,18 @@ pub fn host_strategy() -> impl Strategy<Value = HostCase> {
         .prop_map(|(status_reply, key_reply, goal_state, shared_config, instance)| HostCase { status_reply, key_reply, goal_state, shared_config, instance })
 }
 
-pub const RULE_HOST: &str = "part C: hostile host replies to the agent's own calls. For the status and key calls of the real KeyKeeper and for direct calls of WireServerClient::get_goalstate (+ get_shared_config_uri), get_shared_config and ImdsClient::get_imds_instance_info: bodies derived from the repository's canned documents or arbitrary text, mutated (truncated, span deleted, all RoleInstance elements removed, a run of 2000 multi-byte characters inserted, emptied), encoded as UTF-8 / UTF-16LE / UTF-16LE with an odd number of bytes, sent with right and wrong content types (json/xml/text/octet-stream/none, charset utf-8/utf-16/utf-32), error or success status, Content-Length (the true one, or a declared length of up to 2^64-3 in front of a short body) or chunked, in generated write pieces (odd sizes, with pauses, so that frames split inside code units). oracle: the panic hook stays empty, no spawned task ends in a panic; afterwards the module status of the key keeper can be read (status and provisioning readers), and with a good document restored the key keeper converges again and reports RUNNING. non-trivial: an odd-length UTF-16 body, a goal state without role instances, or a non-ASCII insertion; distinct by hash of the case.";
+pub const RULE_HOST: &str = "part C: hostile host replies to the agent's own calls. For the status and key calls of the real KeyKeeper and for direct calls of WireServerClient::get_goalstate (+ get_shared_config_uri), get_shared_config and ImdsClient::get_imds_instance_info: bodies derived from the repository's canned documents (key documents also with keys of 768 and 8192 bits) or arbitrary text, mutated (truncated, span deleted, all RoleInstance elements removed, a run of 2000 multi-byte characters inserted, emptied), encoded as UTF-8 / UTF-16LE / UTF-16LE with an odd number of bytes, sent with right and wrong content types (json/xml/text/octet-stream/none, charset utf-8/utf-16/utf-32), error or success status, Content-Length (the true one, or a declared length of up to 2^64-3 in front of a short body) or chunked, in generated write pieces (odd sizes, with pauses, so that frames split inside code units). oracle: the panic hook stays empty, no spawned task ends in a panic; afterwards the module status of the key keeper can be read (status and provisioning readers), and with a good document restored the key keeper converges again and reports RUNNING. non-trivial: an odd-length UTF-16 body, a goal state without role instances, or a non-ASCII insertion; distinct by hash of the case.";
 
 fn build_reply(r: &HostileReply) -> (ResponseSpec, bool) {
-    let base: String = match r.base % 6 {
+    let base: String = match r.base % 8 {
         0 => crate::canned::GOAL_STATE.replace("##ip##", "168.63.129.16").replace("##port##", "80"),
         1 => crate::canned::SHARED_CONFIG.to_string(),
         2 => crate::canned::INSTANCE.to_string(),
         3 => r#"{"authorizationScheme":"Azure-HMAC-SHA256","keyDeliveryMethod":"http","keyGuid":null,"requiredClaimsHeaderPairs":["isRoot"],"secureChannelState":"Wireserver","version":"1.0"}"#.to_string(),
         4 => r#"{"authorizationScheme":"Azure-HMAC-SHA256","guid":"9cf81e97-0316-4ad3-94a7-8ccbdee8ccbf","issued":"2021-05-05T 12:00:00Z","key":"4A404E635266556A586E3272357538782F413F4428472B4B6250645367566B59"}"#.to_string(),
+        // key documents whose key is longer than the usual 256 bits (768 bits; 8192 bits): any length is a key to HMAC
+        6 => format!(r#"{{"authorizationScheme":"Azure-HMAC-SHA256","guid":"9cf81e97-0316-4ad3-94a7-8ccbdee8ccbf","issued":"2021-05-05T 12:00:00Z","key":"{}"}}"#, "4A404E635266556A586E3272357538782F413F4428472B4B6250645367566B59".repeat(3)),
+        7 => format!(r#"{{"authorizationScheme":"Azure-HMAC-SHA256","guid":"9cf81e97-0316-4ad3-94a7-8ccbdee8ccbf","issued":"2021-05-05T 12:00:00Z","key":"{}"}}"#, "4A404E635266556A586E3272357538782F413F4428472B4B6250645367566B59".repeat(32)),
         _ => "Service temporarily unavailable \u{2014} r\u{e9}essayez plus tard \u{1f980}".repeat(8),
     };
     let chars: Vec<char> = base.chars().collect();
